@@ -46,6 +46,14 @@ func (self *BinaryConv) doNative(ctx context.Context, src []byte, desc *thrift.T
 		}
 	}()
 
+	// NOTICE: the native scanners look at the bytes behind a number token and compare the literals true/false/null
+	// as a 4-byte word before they check the length. A document that ends in one of those (a root-level scalar, or
+	// a truncated document) gets readable room behind its end
+	if tailNeedsRoom(src) {
+		tmp := make([]byte, len(src), len(src)+8)
+		copy(tmp, src)
+		src = tmp
+	}
 	jp := rt.Mem2Str(src)
 	fsm.Init(0, unsafe.Pointer(desc))
 
@@ -66,6 +74,25 @@ final:
 	runtime.KeepAlive(src)
 	runtime.KeepAlive(buf)
 	return
+}
+
+// tailNeedsRoom tells if the document ends in (a prefix of) a number or a literal
+func tailNeedsRoom(src []byte) bool {
+	n := len(src)
+	if n == 0 {
+		return false
+	}
+	switch c := src[n-1]; {
+	case c >= '0' && c <= '9', c == '-', c == '+', c == '.', c == 'e', c == 'E':
+		return true
+	}
+	for i := n - 1; i >= 0 && i >= n-4; i-- {
+		switch src[i] {
+		case 't', 'f', 'n':
+			return true
+		}
+	}
+	return false
 }
 
 func (self *BinaryConv) handleUnmatchedFields(ctx context.Context, fsm *types.J2TStateMachine, desc *thrift.StructDescriptor, buf *[]byte, pos int, req http.RequestGetter, top bool) (bool, error) {
